@@ -1,3 +1,343 @@
-//! C17 directory level – filled in once the file-system harness (mkfs/fatref) exists.
-use crate::report::{Ctx, Report};
-pub fn run_into(_ctx: &Ctx, _total: &mut Report) {}
+//! C17 directory level: iterate_dir_lfn over crafted directories vs the independent assembler.
+
+use crate::fatref::{self, Slot, Snap};
+use crate::fsx;
+use crate::json::J;
+use crate::mkfs::{lfn_slot_raw, lfn_slots, name11, Alloc, Fmt, Geom};
+use crate::prng::Rng;
+use crate::report::{self, Ctx, Report, Violation};
+use crate::vm::Fl;
+
+use super::lfn::random_unit;
+
+#[derive(Clone, Debug)]
+struct Got {
+    name: [u8; 11],
+    lfn: Option<String>,
+}
+
+fn slot_hex(slots: &[[u8; 32]]) -> J {
+    J::Arr(slots.iter().map(|s| J::s(s.iter().map(|b| format!("{:02x}", b)).collect::<String>())).collect())
+}
+
+/// Build one directory's slot list (after the dot entries).
+fn gen_slots(rng: &mut Rng, f: &mut Fmt, n_groups: usize) -> Vec<[u8; 32]> {
+    let mut out: Vec<[u8; 32]> = Vec::new();
+    let mut serial = 0u32;
+    let mut short = |f: &mut Fmt, rng: &mut Rng, serial: &mut u32| -> [u8; 32] {
+        *serial += 1;
+        let nm = match rng.below(4) {
+            0 => name11(&format!("S{}.TXT", serial)),
+            1 => name11(&format!("LONGNA~{}.DAT", *serial % 10)),
+            _ => name11(&format!("F{:05}.BIN", serial)),
+        };
+        f.raw_entry(&nm, 0x20, 0, 0)
+    };
+    for _ in 0..n_groups {
+        match rng.below(14) {
+            // well-formed run
+            0..=3 => {
+                let len = match rng.below(5) {
+                    0 => 1 + rng.usize_below(13),
+                    1 => 13 * (1 + rng.usize_below(3)),
+                    2 => 240 + rng.usize_below(8), // 19 fragments
+                    3 => 248 + rng.usize_below(12), // 20 fragments: outside the supported range
+                    _ => 1 + rng.usize_below(60),
+                };
+                let name: Vec<u16> = (0..len)
+                    .map(|_| {
+                        let u = random_unit(rng);
+                        if u == 0 {
+                            0x41
+                        } else {
+                            u
+                        }
+                    })
+                    .collect();
+                let s = short(f, rng, &mut serial);
+                let mut nm = [0u8; 11];
+                nm.copy_from_slice(&s[..11]);
+                out.extend(lfn_slots(&name, &nm));
+                out.push(s);
+            }
+            // run with a defect
+            4..=8 => {
+                let len = 14 + rng.usize_below(40);
+                let name: Vec<u16> = (0..len).map(|i| 0x61 + (i as u16 % 26)).collect();
+                let s = short(f, rng, &mut serial);
+                let mut nm = [0u8; 11];
+                nm.copy_from_slice(&s[..11]);
+                let mut run = lfn_slots(&name, &nm);
+                let k = rng.usize_below(run.len());
+                match rng.below(9) {
+                    0 => {
+                        run.remove(k); // gap
+                    }
+                    1 => {
+                        let d = run[k];
+                        run.insert(k, d); // duplicate
+                    }
+                    2 => run[0][0] &= !0x40, // missing start flag
+                    3 => run[0][13] ^= 0x5A, // checksum mismatch in the first fragment
+                    4 => {
+                        let last = run.len() - 1;
+                        run[last][13] ^= 0x5A; // checksum mismatch in a later fragment
+                    }
+                    5 => run.reverse(), // wrong order
+                    6 => {
+                        // a deleted slot in the middle of the run (skipped by the walk)
+                        let mut d = short(f, rng, &mut serial);
+                        d[0] = 0xE5;
+                        run.insert(k, d);
+                    }
+                    7 => {
+                        // 0x40 flag also on a later fragment
+                        let last = run.len() - 1;
+                        run[last][0] |= 0x40;
+                    }
+                    _ => {
+                        // sequence number 0 / wrong numbering
+                        run[k][0] = (run[k][0] & 0x40) | (rng.below(32) as u8);
+                    }
+                }
+                out.extend(run);
+                out.push(s);
+            }
+            // orphan run followed by a deleted slot, then a short entry
+            9 => {
+                let name: Vec<u16> = "orphaned long name.txt".encode_utf16().collect();
+                let s = short(f, rng, &mut serial);
+                let mut nm = [0u8; 11];
+                nm.copy_from_slice(&s[..11]);
+                out.extend(lfn_slots(&name, &nm));
+                let mut del = s;
+                del[0] = 0xE5;
+                out.push(del);
+                out.push(short(f, rng, &mut serial));
+            }
+            // two consecutive short entries with equal LFN checksums, the first with a long name
+            10 => {
+                let s = short(f, rng, &mut serial);
+                let mut nm = [0u8; 11];
+                nm.copy_from_slice(&s[..11]);
+                let name: Vec<u16> = "first of twins".encode_utf16().collect();
+                out.extend(lfn_slots(&name, &nm));
+                out.push(s);
+                // second: different name, same checksum – swap two bytes whose contribution commutes
+                // is hard in general; simply reuse the same 11 bytes with the directory bit clear/other attr
+                let mut twin = f.raw_entry(&nm, 0x20, 0, 0);
+                twin[11] = 0x22;
+                out.push(twin);
+            }
+            // random slot bytes with the LFN attribute
+            11 => {
+                let mut r = [0u8; 32];
+                rng.fill(&mut r);
+                r[11] = 0x0F;
+                if r[0] == 0 || r[0] == 0xE5 {
+                    r[0] = 0x41;
+                }
+                out.push(r);
+                if rng.chance(1, 2) {
+                    out.push(short(f, rng, &mut serial));
+                }
+            }
+            // fully random units in a well-formed run
+            12 => {
+                let n = 1 + rng.usize_below(4);
+                let s = short(f, rng, &mut serial);
+                let mut nm = [0u8; 11];
+                nm.copy_from_slice(&s[..11]);
+                let cs = fatref::lfn_checksum(&nm);
+                for seq in (1..=n).rev() {
+                    let mut u = [0u16; 13];
+                    for x in u.iter_mut() {
+                        *x = rng.next_u32() as u16;
+                    }
+                    out.push(lfn_slot_raw(seq as u8 | if seq == n { 0x40 } else { 0 }, cs, &u));
+                }
+                out.push(s);
+            }
+            _ => out.push(short(f, rng, &mut serial)),
+        }
+    }
+    out
+}
+
+pub fn run_into(ctx: &Ctx, total: &mut Report) {
+    let ndirs = ctx.pick(20_000usize, 400_000usize);
+    let r = report::parallel(ctx.threads, ndirs, |i, rep| {
+        let mut rng = Rng::from_parts(&[ctx.seed, 17, 7, i as u64]);
+        let fat32 = i % 3 == 0;
+        let mut g = if fat32 { Geom::base_fat32(65525 + rng.below(200) as u32, 1) } else { Geom::base_fat16(4085 + rng.below(600) as u32, *rng.pick(&[1u32, 2, 4])) };
+        g.neighbours = false;
+        g.part_start = 1;
+        let mut f = Fmt::new(g, Rng::new(rng.next_u64()));
+        let d = f.mkdir(0, &name11("LFNDIR"), 0, Alloc::Seq);
+        let ngroups = 1 + rng.usize_below(12);
+        let slots = gen_slots(&mut rng, &mut f, ngroups);
+        for s in &slots {
+            f.put_slot(d, s, Alloc::Scatter);
+        }
+        let (img, g, _) = f.finish();
+        let bufsize = match rng.below(5) {
+            0 => 780,
+            1 => rng.usize_below(40),
+            2 => 64,
+            _ => 255 * 3,
+        };
+        // reference
+        let snap = match Snap::open(&img, g.part_slot) {
+            Ok(s) => s,
+            Err(e) => {
+                rep.inconclusive.push(format!("fatref cannot mount generated image: {}", e));
+                return;
+            }
+        };
+        let w = snap.walk();
+        let Some(dn) = w.nodes.iter().find(|n| n.path == "LFNDIR") else {
+            rep.inconclusive.push("generated directory not found".into());
+            return;
+        };
+        let (all, _, _) = snap.dir_slots(fatref::DirLoc::Cluster(dn.start));
+        let live = Snap::live_slots(&all);
+        // expected per short entry: (name, sound_units, wellformed_units)
+        struct Exp {
+            name: [u8; 11],
+            sound: Option<Vec<u16>>,
+            well: Option<Vec<u16>>,
+            nfrag: usize,
+        }
+        let mut exp: Vec<Exp> = Vec::new();
+        let mut run: Vec<Slot> = Vec::new();
+        for s in &live {
+            if s.is_lfn() {
+                run.push(s.clone());
+                continue;
+            }
+            let well = fatref::assemble_lfn_units(&run, &s.name());
+            // "sound" = complete ordered run where only the FIRST fragment's checksum must match
+            let sound = {
+                let mut r2 = run.clone();
+                if let Some(p) = r2.iter().rposition(|x| x.raw[0] & 0x40 != 0) {
+                    let c0 = r2[p].raw[13];
+                    for x in r2[p..].iter_mut() {
+                        x.raw[13] = c0;
+                    }
+                    if c0 == fatref::lfn_checksum(&s.name()) {
+                        fatref::assemble_lfn_units(&r2, &s.name())
+                    } else {
+                        None
+                    }
+                } else {
+                    None
+                }
+            };
+            let nfrag = run.iter().rposition(|x| x.raw[0] & 0x40 != 0).map(|p| run.len() - p).unwrap_or(0);
+            exp.push(Exp { name: s.name(), sound, well, nfrag });
+            run.clear();
+        }
+        // library
+        let m = fsx::mount_image(img, (4, 4, 1), 5000);
+        let res = report::catch(|| {
+            let v = m.vm.open_volume(Fl::Raw, g.part_slot)?;
+            let d = fsx::open_path(&*m.vm, v, "LFNDIR")?;
+            let mut buf = vec![0u8; bufsize];
+            let mut got: Vec<Got> = Vec::new();
+            let fl = if i % 2 == 0 { Fl::Raw } else { Fl::Wrap };
+            m.vm.iterate_lfn(fl, d, &mut buf, &mut |e, n| {
+                got.push(Got { name: crate::codec::entry::sfn_bytes(&e.name), lfn: n.map(|s| s.to_string()) });
+            })?;
+            let plain = fsx::list_dir(&*m.vm, d)?;
+            Ok::<_, crate::vm::E>((got, plain))
+        });
+        rep.evaluations += 1;
+        let case = || J::obj().set("geometry", g.describe()).set("buffer_size", bufsize).set("slots_after_dot_entries", slot_hex(&slots));
+        let (got, plain) = match res {
+            Err((pm, loc)) => {
+                let l = report::short_loc(&loc);
+                rep.violate(Violation::new("C17", "C17.panic", "iterate_dir_lfn", l.split(':').next().unwrap_or(""), format!("listing panicked: '{}' at {}", pm, l), case()));
+                return;
+            }
+            Ok(Err(e)) => {
+                rep.violate(Violation::new("C17", "C17.seq", "iterate_dir_lfn", "error", format!("listing a crafted directory failed: {:?}", e), case()));
+                return;
+            }
+            Ok(Ok(x)) => x,
+        };
+        // same sequence of short entries as the plain listing and as the reference
+        let names_lfn: Vec<[u8; 11]> = got.iter().map(|g| g.name).collect();
+        let names_plain: Vec<[u8; 11]> = plain.iter().map(|e| e.name).collect();
+        let names_ref: Vec<[u8; 11]> = exp.iter().map(|e| e.name).collect();
+        if names_lfn != names_plain || names_lfn != names_ref {
+            rep.violate(Violation::new(
+                "C17",
+                "C17.seq",
+                "iterate_dir_lfn",
+                "short-entry sequence",
+                format!("iterate_dir_lfn delivered {} short entries, iterate_dir {}, independent reader {}", names_lfn.len(), names_plain.len(), names_ref.len()),
+                case(),
+            ));
+            return;
+        }
+        let mut nontrivial = false;
+        for (k, (g1, e)) in got.iter().zip(exp.iter()).enumerate() {
+            let nm = fatref::display_name(&e.name);
+            if e.nfrag > 0 {
+                nontrivial = true;
+            }
+            match &g1.lfn {
+                Some(s) => {
+                    match &e.sound {
+                        None => {
+                            let detail = if e.nfrag == 0 { "short entry not preceded by any long-name run" } else { "incomplete/misordered/mismatching run" };
+                            rep.violate(Violation::new("C17", "C17.lfn-unsound", "iterate_dir_lfn", detail, format!("entry #{} {} reported with long name {:?} although no complete matching run precedes it", k, nm, s), case()));
+                            return;
+                        }
+                        Some(u) => {
+                            let want = String::from_utf16_lossy(u);
+                            let fits = want.len() <= bufsize;
+                            if (fits && *s != want) || (!fits && !s.is_empty()) {
+                                rep.violate(Violation::new("C17", "C17.text", "iterate_dir_lfn", "name differs from reference decoding", format!("entry #{} {}: long name {:?}, reference {:?} (buffer {})", k, nm, s, want, bufsize), case()));
+                                return;
+                            }
+                            rep.count("long_names_confirmed", 1);
+                        }
+                    }
+                }
+                None => {
+                    if let Some(u) = &e.well {
+                        let want = String::from_utf16_lossy(u);
+                        if e.nfrag <= 19 && want.len() <= bufsize {
+                            rep.violate(Violation::new("C17", "C17.lfn-missing", "iterate_dir_lfn", &format!("{} fragments", if e.nfrag <= 1 { "1".to_string() } else { "2..19".to_string() }), format!("entry #{} {}: well-formed {}-fragment run {:?} not reported", k, nm, e.nfrag, want), case()));
+                            return;
+                        }
+                    }
+                    rep.count("entries_without_long_name", 1);
+                }
+            }
+        }
+        if nontrivial {
+            rep.distinct.insert(crate::prng::hash_bytes(&slots.concat()));
+        }
+        rep.count("directories_listed", 1);
+        rep.count("short_entries_delivered", got.len() as u64);
+        if i < 2 {
+            rep.samples.push(
+                J::obj()
+                    .set("kind", "directory-level case")
+                    .set("geometry", g.describe())
+                    .set("buffer_size", bufsize)
+                    .set("slots", slots.len())
+                    .set("delivered", J::Arr(got.iter().map(|x| J::obj().set("short", fatref::display_name(&x.name)).set("long", x.lfn.clone().map(J::Str).unwrap_or(J::Null))).collect())),
+            );
+        }
+    });
+    total.merge(r);
+}
+
+impl From<Option<J>> for J {
+    fn from(o: Option<J>) -> J {
+        o.unwrap_or(J::Null)
+    }
+}
